@@ -87,6 +87,8 @@ def edit_label(prefix, name, e):
 class C14:
     LEVEL = "proof"
     CL03 = True
+    @staticmethod
+    def coq_eval_terms(S): return _q().micro_coq_terms(S, limit=16)
     RULE = ("toy suite: n in 1..4 attributes and ALL non-empty hidden-position sets U, with and without a trusted-party commitment: commit, ZKPoK generate (production RNG, draws "
             "replayed into the model: proofs equal integer for integer), verify_proof, blind_sign, unblind, verify_multiattr on the full vector; update_signature after changing a "
             "revealed attribute verifies on the new vector and not on the old one; mismatches (commitment to other attributes, other U, other bases / pk, other or missing trusted "
@@ -95,6 +97,19 @@ class C14:
     def generate(S, tier):
         P = _p(); Q = _q(); rng = S.rng
         stats = {"flows": 0, "subsets": 0, "field_edits": 0, "mismatches": 0, "premise_checks": 0, "draws_seen": 0}
+        # whole issuance flows on the micro suite (17-bit primes): ALSO evaluated inside Coq (vm_compute, no extraction)
+        xm = Q.make_ctx(S, "micro", 2)
+        if xm is not None:
+            mm_ = [rng.getrandbits(8) for _ in range(2)]
+            for Um in ([1], [0, 1]):
+                fm = issue(S, xm, mm_, Um, False, label="micro:issue")
+                if fm is None: continue
+                S.run([zkver_line(xm, fm)], expect=true_, label="micro:verify_proof")
+                rbm = S.run([blindsign_line(xm, fm)], expect="ok", label="micro:blind_sign")[0]
+                if rbm.status == "OK":
+                    rum = S.run(["clunblind micro %s %s" % (zl([rbm.z(0), rbm.z(1), rbm.z(2)]), zl(fm["C"]))], expect="ok", label="micro:unblind")[0]
+                    S.run([Q.vline(xm, mm_, [rum.z(0), rum.z(1), rum.z(2)])], expect=true_, label="micro:verify(unblind(blind_sign))")
+                    stats["micro_flows"] = stats.get("micro_flows", 0) + 1
         for suite, fx in Q.suites_for(tier):
             ns = ([1, 2, 3] if tier == "quick" else [1, 2, 3, 4, 5]) if suite == "toy" else [2]
             for n in ns:
@@ -183,6 +198,8 @@ def spokver_line(x, doc, msgs, U, n=None, cpk=None, pk=None, bases=None, reveale
 class C15:
     LEVEL = "proof"
     CL03 = True
+    @staticmethod
+    def coq_eval_terms(S): return _q().micro_coq_terms(S, limit=16)
     RULE = ("toy suite: n in 1..4 attributes, ALL subsets U of hidden positions (none, some, all), commitment key over the issuer modulus: proof_gen with the production RNG "
             "(draws replayed into the model: proofs equal integer for integer), proof_verify with the revealed attributes = true; single edits of revealed attributes, pk, bases, "
             "commitment key, U, n and +-1 / zero / swap on every integer of the serialized proof => false (a refusal by panic counts); CL1024 sampled with a fixture modulus")
@@ -190,6 +207,18 @@ class C15:
     def generate(S, tier):
         P = _p(); Q = _q(); rng = S.rng
         stats = {"proofs": 0, "field_edits": 0, "mismatches": 0, "premise_checks": 0, "draws_seen": 0}
+        # whole flows on the micro suite (17-bit primes): these cases are ALSO evaluated inside Coq (vm_compute, no extraction)
+        xm = Q.make_ctx(S, "micro", 2)
+        if xm is not None:
+            mm_ = [rng.getrandbits(8) for _ in range(2)]
+            sgm = Q.sign(S, xm, mm_, label="micro:sign")
+            if sgm is not None:
+                S.run([Q.vline(xm, mm_, sgm)], expect=true_, label="micro:verify")
+                for Um in ([1], [0, 1]):
+                    rm = S.run([spokgen_line(xm, sgm, mm_, Um)], expect="ok", label="micro:proof_gen")[0]
+                    if rm.status == "OK":
+                        S.run([spokver_line(xm, rm.json(0), mm_, Um)], expect=true_, label="micro:proof_verify")
+                        stats["micro_flows"] = stats.get("micro_flows", 0) + 1
         for suite, fx in Q.suites_for(tier):
             ns = ([1, 2, 3] if tier == "quick" else [1, 2, 3, 4, 5]) if suite == "toy" else [2]
             for n in ns:
